@@ -5,7 +5,7 @@ use chrono_english::{parse_date_string, Dialect};
 use regex::Regex;
 
 static DATE_REGEX: LazyLock<Regex> = LazyLock::new(|| {
-    Regex::new("(\\d{4})(-|:)(\\d{1,2})(-|:)(\\d{1,2}) ?(\\d{1,2})?:?(\\d{1,2})?:?(\\d{1,2})?").unwrap()
+    Regex::new("([0-9]{4})(-|:)([0-9]{1,2})(-|:)([0-9]{1,2}) ?([0-9]{1,2})?:?([0-9]{1,2})?:?([0-9]{1,2})?").unwrap()
 });
 
 pub fn parse_datetime(s: &str) -> Result<(NaiveDateTime, NaiveDateTime), String> {
@@ -86,10 +86,18 @@ pub fn parse_datetime(s: &str) -> Result<(NaiveDateTime, NaiveDateTime), String>
             }
         }
         None => {
-            // chrono-english slices its input by bytes and panics on multi-byte characters
-            if s.len() >= 5 && s.is_ascii() {
-                match parse_date_string(s, Local::now(), Dialect::Uk) {
-                    Ok(date_time) => {
+            // a signed number is an offset in days, however many digits it has
+            let is_day_offset = s.len() >= 2
+                && (s.starts_with('+') || s.starts_with('-'))
+                && s[1..].bytes().all(|b| b.is_ascii_digit());
+            // a bare number is no date (chrono-english would read it as a year)
+            let is_bare_number = !s.is_empty() && s.bytes().all(|b| b.is_ascii_digit() || b == b'.');
+
+            // chrono-english slices its input by bytes and panics on multi-byte characters,
+            // and on some out-of-range values: such text is no date either
+            if !is_day_offset && !is_bare_number && s.len() >= 5 && s.is_ascii() {
+                match crate::util::no_panic(|| parse_date_string(s, Local::now(), Dialect::Uk)) {
+                    Some(Ok(date_time)) => {
                         let date_time = date_time.naive_local();
                         let finish = if date_time.hour() == 0
                             && date_time.minute() == 0
@@ -110,7 +118,7 @@ pub fn parse_datetime(s: &str) -> Result<(NaiveDateTime, NaiveDateTime), String>
                     }
                     _ => Err("Error parsing date/time value: ".to_string() + s),
                 }
-            } else if s.len() >= 2 && (s.starts_with("+") || s.starts_with("-")) {
+            } else if is_day_offset {
                 let days = match s.parse::<i32>() {
                     Ok(days) => days as i64,
                     _ => return Err("Error parsing date/time value: ".to_string() + s),
